@@ -66,7 +66,7 @@ def parser_spec(feats, eoe):
 
 
 ARGV = {
-    "_": [[], ["--help"], ["--unknown=1"], ["--a=1"], ["--a=x"], ["--a", "7"], ["--a"], ["--print_shtab=bash"]],
+    "_": [[], ["--help"], ["--unknown=1"], ["--a=1"], ["--a=x"], ["--a", "7"], ["--a"]],
     "l": [["--l+=1"], ["--l=[1,2]"], ["--l+=x"], ["--l+=[3,4]"]],
     "dd": [["--dd.u=3"], ['--dd={"u":2,"w":[1]}'], ["--dd.zz=1"], ["--dd=null"]],
     "base": [
@@ -145,6 +145,8 @@ def _pool(table, feats, rng):
 def gen_argv(rng, feats):
     frags = []
     keys = _pool(ARGV, feats, rng)
+    if rng.random() < 0.012:
+        return [rng.choice(["--print_shtab=bash", "--print_shtab=zsh", "--print_shtab=nope"])]
     n = rng.choice([1, 1, 1, 2, 2, 3])
     for _ in range(n):
         frags.append(rng.choice(ARGV[rng.choice(keys)]))
@@ -344,6 +346,11 @@ def residue_pre(R, cwd0, ns0):
     """residue visible before the next operation starts (does not need a fresh parser)"""
     if R is not None and hasattr(R, "print_config"):
         return "parser.print_config"
+    if R is not None and "--print_shtab" in R._option_string_actions:
+        from jsonargparse._completions import ShtabAction
+
+        if not any(isinstance(a, ShtabAction) for a in R._actions):
+            return "shtab-prepared-parser"  # option registered, its action removed: left behind by --print_shtab
     if os.getcwd() != cwd0:
         return "cwd"
     if argparse.Namespace is not ns0:
